@@ -264,8 +264,14 @@ def child_main(backend: str, tier: str, out_path: str) -> None:
     if backend == "py":
         sys.modules["bitstruct.c"] = None  # type: ignore[assignment]  # force the ImportError fallback
     common.setup_paths()
-    import odxtools.encodestate as es
-    bound = getattr(es.bitstruct, "__name__", "?")
+    import odxtools  # noqa
+    # which backend got bound: the accelerated module is in sys.modules iff its import succeeded
+    cmod = sys.modules.get("bitstruct.c")
+    bound = "bitstruct.c" if cmod is not None else "bitstruct"
+
+    class _ES:  # keeps the reporting code below independent of odxtools' module layout
+        bitstruct = cmod if cmod is not None else sys.modules.get("bitstruct")
+    es = _ES
     col = common.Collector()
     with monitors.Reach(["odxtools/encodestate.py", "odxtools/decodestate.py",
                          "odxtools/standardlengthtype.py"]) as reach:
